@@ -94,6 +94,9 @@ impl Session {
     /// parse (no tree yet) or extend (tree present) with one document; on Err/Panic the tree is gone
     pub fn feed(&mut self, bytes: &[u8], cfg: &ReaderCfg, chunk: usize) -> Outcome {
         let prev = self.tree.take();
+        if let Some(t) = prev.as_ref() {
+            crate::util::probe_render(t);
+        }
         let res = std::panic::catch_unwind(std::panic::AssertUnwindSafe(|| {
             let mut reader = Reader::from_reader(Chunked::new(bytes, chunk));
             configure(&mut reader, cfg);
